@@ -2,6 +2,7 @@
 (* Hand-written miniature of what tools/gen.py generates per suite (the     *)
 (* generated module of the same name replaces this one in the work          *)
 (* directory): subject -> take(2) -> map(+1), one case.                     *)
+EXTENDS Integers
 ProgDef == <<
   [op |-> "subject", a |-> 1, b |-> 0, v |-> <<"u">>, l |-> <<>>, s1 |-> 0, s2 |-> 0],
   [op |-> "take", a |-> 2, b |-> 0, v |-> <<"u">>, l |-> <<>>, s1 |-> 1, s2 |-> 0],
